@@ -115,7 +115,7 @@ def harness_bin(names, mode):
     if interfaces:
         # the C interface: generic part plus the generated Polyhedron file (regenerated by the repository's own m4 rules)
         cdir = os.path.join(REPO, 'interfaces', 'C')
-        subprocess.run(['make', '-s', '-C', cdir, 'ppl_c.h', 'ppl_c_Polyhedron.cc', 'ppl_c_Polyhedron.hh'], stdout=subprocess.DEVNULL, stderr=subprocess.DEVNULL)
+        subprocess.run(['make', '-s', '-C', cdir, 'ppl_c.h', 'ppl_c_implementation_domains.cc.stamp'], stdout=subprocess.DEVNULL, stderr=subprocess.DEVNULL)
         extra = [os.path.join(cdir, 'ppl_c_implementation_common.cc'), os.path.join(cdir, 'ppl_c_Polyhedron.cc')]
         incs = incs + ['-I' + cdir]
         hdrs = hdrs + glob.glob(os.path.join(cdir, '*.hh')) + glob.glob(os.path.join(cdir, '*.h')) + glob.glob(os.path.join(cdir, '*.m4')) + glob.glob(os.path.join(REPO, 'interfaces', '*.m4'))
